@@ -330,6 +330,13 @@ impl ZerokitMerkleTree for PmTree {
     }
 
     fn proof(&self, index: usize) -> Result<Self::Proof> {
+        #[cfg(zerokit_verif)]
+        if let Some(sc) = utils::verif_trace::enter_proof() {
+            let sc = sc.call::<Self>(self.verif_id(), "pm", "proof", format!("\"i\":{}", index));
+            let r = self.proof(index);
+            sc.finish_proof(self, r.as_ref().ok());
+            return r;
+        }
         let proof = self.tree.proof(index)?;
         Ok(PmTreeProof { proof })
     }
